@@ -22,6 +22,7 @@ import (
 	"strconv"
 	"strings"
 	"sync"
+	"sync/atomic"
 	"time"
 
 	"github.com/mikefarah/yq/v4/pkg/verifhook"
@@ -496,20 +497,25 @@ func main() {
 		if !lib.LazyInit {
 			yqlib.InitExpressionParser()
 		}
-		// Free running (meant for the -race build). A lock taken inside the library (the logger's,
-		// for one) orders most accesses of two short evaluations by chance, so every job is run by
-		// several goroutines, several times, in several barrier-started rounds: the race detector
-		// has no false positives, the repetition only raises the chance that it sees a race.
-		reps, copies, iters := 4, 3, 8
+		// Free running (meant for the -race build): which goroutine runs when is left to the Go scheduler.
+		// The race detector reports two accesses only if nothing orders them, and a library that
+		// allocates and formats a lot orders most accesses of two short evaluations by accident
+		// (sync.Pool hand-offs, for one). To give it a fair chance the task goroutines walk in step:
+		// at every yield point they meet at a barrier, so the stretch of code between two yield points
+		// is executed by all of them with nothing ordering one against the other - on a busy machine too.
+		reps, copies, iters := envInt("LIBSIM_REPS", 3), envInt("LIBSIM_COPIES", 2), envInt("LIBSIM_ITERS", 3)
 		for rep := 0; rep < reps; rep++ {
 			var wg sync.WaitGroup
 			start := make(chan struct{})
 			results := make([]jobResult, len(lib.Tasks))
+			bar := &stepBarrier{active: int64(len(lib.Tasks) * copies)}
+			verifhook.SetController(bar)
 			for i, idx := range lib.Tasks {
 				for c := 0; c < copies; c++ {
 					wg.Add(1)
 					go func(i, idx, c int) {
 						defer wg.Done()
+						defer bar.leave()
 						<-start
 						if lib.LazyInit {
 							_ = yqlib.NewAllAtOnceEvaluator()
@@ -525,6 +531,7 @@ func main() {
 			}
 			close(start)
 			wg.Wait()
+			verifhook.SetController(nil)
 			if rep == 0 {
 				res.Results = results
 			}
@@ -547,4 +554,58 @@ func sigOf(trace []string) string {
 		h *= 1099511628211
 	}
 	return strconv.FormatUint(h, 16)
+}
+
+func envInt(name string, def int) int {
+	if v, err := strconv.Atoi(os.Getenv(name)); err == nil && v > 0 {
+		return v
+	}
+	return def
+}
+
+// stepBarrier makes the free-running task goroutines meet at every yield point. A goroutine
+// that waits longer than a few milliseconds goes on alone (nothing may hang because of it).
+type stepBarrier struct {
+	active   int64
+	arrived  int64
+	gen      int64
+	timeouts int64
+}
+
+func (b *stepBarrier) await() {
+	gen := atomic.LoadInt64(&b.gen)
+	if atomic.AddInt64(&b.arrived, 1) >= atomic.LoadInt64(&b.active) {
+		atomic.StoreInt64(&b.arrived, 0)
+		atomic.AddInt64(&b.gen, 1)
+		return
+	}
+	if atomic.LoadInt64(&b.timeouts) >= 3 {
+		return // something keeps a goroutine away from the yield points: stop insisting
+	}
+	deadline := time.Now().Add(250 * time.Millisecond)
+	for spins := 0; atomic.LoadInt64(&b.gen) == gen; spins++ {
+		if spins&1023 == 1023 && time.Now().After(deadline) {
+			atomic.AddInt64(&b.timeouts, 1)
+			return
+		}
+		runtime.Gosched()
+	}
+}
+
+func (b *stepBarrier) leave() {
+	if atomic.AddInt64(&b.active, -1) <= atomic.LoadInt64(&b.arrived) {
+		atomic.StoreInt64(&b.arrived, 0)
+		atomic.AddInt64(&b.gen, 1)
+	}
+}
+
+func (b *stepBarrier) Step(string, []string) error               { return nil }
+func (b *stepBarrier) StepFile(string, *os.File)                 {}
+func (b *stepBarrier) Reader(_, _ string, _ io.Reader) io.Reader { return nil }
+func (b *stepBarrier) Writer(_ string, w io.Writer) io.Writer    { return w }
+func (b *stepBarrier) Yield(site string) {
+	if site == "io.read" || site == "io.write" {
+		return
+	}
+	b.await()
 }
